@@ -4,7 +4,7 @@ import os
 
 from vlib import VERIF, h
 
-_PATH = os.path.join(VERIF, "known_findings.json")
+_PATH = os.environ.get("VERIF_KF") or os.path.join(VERIF, "known_findings.json")
 
 
 def load():
